@@ -414,11 +414,24 @@ pub fn judge(tr: &Transition) -> Judged {
     if let Some(res) = &i_ab {
         let rsub = decode_ss(res);
         // C06: earlier bindings kept verbatim
+        let mut c09_blamed = false;
         for (i, e) in tr.prior.iter().enumerate() {
             if let Some(old) = e {
                 let kept = res.get(i).and_then(|x| x.as_ref()).map_or(false, |n| **n == **old);
                 if !kept {
                     viols.push(("C06".into(), cls("prior-binding-changed"), format!("binding of id {} changed — {}", i, desc())));
+                    // C09 ("without creating or changing any binding"): blame `$_` when the same
+                    // pair with every `$_` replaced by a fresh variable keeps the earlier bindings
+                    if (a.t.has_anon() || b.t.has_anon()) && !has_func && !c09_blamed {
+                        let (ua, ub) = (to_suiron(&sa), to_suiron(&sb));
+                        if let Ok(Some(r2)) = real_unify(&ua, &ub, tr.prior) {
+                            let all_kept = tr.prior.iter().enumerate().all(|(j, e)| e.as_ref().map_or(true, |old| r2.get(j).and_then(|x| x.as_ref()).map_or(false, |n| **n == **old)));
+                            if all_kept {
+                                c09_blamed = true;
+                                viols.push(("C09".into(), cls("anon-changed-prior-binding"), format!("binding of id {} changed although the operands only differ from a binding-preserving pair by `$_` — {}", i, desc())));
+                            }
+                        }
+                    }
                 }
             }
         }
